@@ -94,17 +94,27 @@ def capture_probe(rng):
     name = rng.choice(["Vec3", "Node", "Handle"])
     lib = rng.choice([["lib"], ["core", "math"]])
     obs = rng.choice([["game", "entity"], ["game", "world", "actor"], ["app"]])
-    where = rng.choice(["ancestor", "sibling", "child", "toplevel", "namesake", "namesake"])
+    where = rng.choice(["ancestor", "sibling", "child", "toplevel", "namesake", "namesake", "type_import_parent", "type_import_parent"])
     if where == "ancestor" and len(obs) < 2:
         where = "toplevel"
     # namesake: a module in another directory whose file has the same name as the observed module's; it looks the
     # same short name up itself (and binds it to its own definition), before or after the observed module in path order
     other = {"ancestor": obs[:rng.randint(1, len(obs) - 1)] if len(obs) > 1 else ["zz"],
              "sibling": obs[:-1] + ["zz_sibling"], "child": obs + ["zz_child"], "toplevel": ["zz_top"],
-             "namesake": [rng.choice(["aa_dir", "zz_dir"]), obs[-1]]}[where]
+             "namesake": [rng.choice(["aa_dir", "zz_dir"]), obs[-1]],
+             # a module from which the observed one imports ONE TYPE by name (`use render::Texture;`): that import brings
+             # in that type only, so another definition added to `render` is none of the observed module's business
+             "type_import_parent": [rng.choice(["aa_render", "zz_render"])]}[where]
     files = {"/".join(lib) + ".pyxis": "pub type %s { pub a: [u8; %d] }\n" % (name, k1),
              "/".join(obs) + ".pyxis": "use %s;\npub type Holder {\n    pub v: %s,\n    pub p: *const %s,\n}\n" % ("::".join(lib), name, name)}
-    if rng.random() < 0.5:
+    if where == "type_import_parent":
+        files["/".join(other) + ".pyxis"] = "pub type ZzTexture { pub a: u32 }\n"
+        o_ = "/".join(obs) + ".pyxis"
+        first = rng.random() < 0.7
+        imp = "use %s::ZzTexture;\n" % "::".join(other)
+        files[o_] = (imp + files[o_]) if first else files[o_].replace("\n", "\n" + imp, 1)
+        files[o_] += "pub type ZzUsesTexture { pub t: *const ZzTexture }\n"
+    elif rng.random() < 0.5:
         files["/".join(other) + ".pyxis"] = "pub type ZzOther { pub a: u32 }\n"
     new = dict(files)
     new["/".join(other) + ".pyxis"] = files.get("/".join(other) + ".pyxis", "") + "pub type %s { pub zz: [u8; %d] }\n" % (name, k2)
